@@ -3,6 +3,7 @@ package gvc
 // Evaluation of contract expressions to SMT terms.
 
 import (
+	"sort"
 	"fmt"
 	"go/types"
 	"os"
@@ -274,6 +275,31 @@ func (x *Exec) lookupIdent(st *State, fr *Frame, name string, sc *scope) (Val, e
 			v := x.freshVal(st, "unbound."+name, t)
 			sc.extra[key] = v
 			return v, nil
+		}
+	}
+	// ... or a recorded local of the function under contract that now lives in an extracted helper which
+	// did not run on this path: an arbitrary value of its type there
+	if fr != nil && st != nil && len(st.frames) > 0 && st.frames[0] == fr && os.Getenv("GVC_NO_RENAME") == "" {
+		if _, was := loadBaseNames()[baseKey(fr.fn)][name]; was {
+			if _, still := currentNames(fr.fn)[name]; !still {
+				var found types.Type
+				n := 0
+				for _, hf := range x.newHelpersOfTop() {
+					if t, _ := localType(hf, name); t != nil {
+						found = t
+						n++
+					}
+				}
+				if n == 1 {
+					key := "unboundlocal:" + name
+					if v, ok := sc.extra[key]; ok {
+						return v, nil
+					}
+					v := x.freshVal(st, "unbound."+name, found)
+					sc.extra[key] = v
+					return v, nil
+				}
+			}
 		}
 	}
 	// A local that exists in the function but is not bound on this path (e.g. an early return before
@@ -1059,7 +1085,7 @@ func (x *Exec) evalCall(st *State, fr *Frame, e ECall, sc *scope) (Val, error) {
 			// is mostly used on error results)
 			if x.Top != nil {
 				// a call site of the function under contract names the callee (library functions too)
-				for _, b := range x.Top.Blocks {
+				for _, b := range x.topAndHelperBlocks() {
 					for _, in := range b.Instrs {
 						c, ok := in.(*ssa.Call)
 						if !ok {
@@ -1134,7 +1160,8 @@ func (x *Exec) evalCall(st *State, fr *Frame, e ECall, sc *scope) (Val, error) {
 			// no such call on this path: an arbitrary (unconstrained) value of the argument's type,
 			// taken from a call site of the function under contract
 			if x.Top != nil && k >= 0 {
-				for _, b := range x.Top.Blocks {
+				// (also from the helpers that were extracted from it since the ledger was recorded)
+				for _, b := range x.topAndHelperBlocks() {
 					for _, in := range b.Instrs {
 						c, ok := in.(*ssa.Call)
 						if !ok {
@@ -1410,4 +1437,36 @@ func (x *Exec) helperLocal(st *State, fr *Frame, name string) (Val, bool) {
 	}
 	x.Abstracted["local that moved into an extracted helper, read after the helper returned: "+name]++
 	return st.meta[pick], true
+}
+
+
+// newHelpersOfTop: the functions of the package of the function under contract that did not exist when
+// the ledger was recorded (helpers extracted since), by name.
+func (x *Exec) newHelpersOfTop() []*ssa.Function {
+	if x.Top == nil || x.Top.Pkg == nil {
+		return nil
+	}
+	var hn []string
+	for n, f := range x.P.Funcs {
+		if f != nil && f.Pkg == x.Top.Pkg && f != x.Top && isNewHelper(n, f) {
+			hn = append(hn, n)
+		}
+	}
+	sort.Strings(hn)
+	var out []*ssa.Function
+	for _, n := range hn {
+		out = append(out, x.P.Funcs[n])
+	}
+	return out
+}
+
+// topAndHelperBlocks: the blocks of the function under contract and of the helpers extracted from its
+// package since the ledger was recorded (where its call sites may have moved).
+func (x *Exec) topAndHelperBlocks() []*ssa.BasicBlock {
+	var blocks []*ssa.BasicBlock
+	blocks = append(blocks, x.Top.Blocks...)
+	for _, f := range x.newHelpersOfTop() {
+		blocks = append(blocks, f.Blocks...)
+	}
+	return blocks
 }
